@@ -40,6 +40,11 @@ STREAMS["addr"] = {
 _ADDR_ASSUME = [
     "modelled, not verified: Go's net/url (Parse, String, EscapedPath, ParseQuery, Values.Encode, escaping; Addr/Url.v, bytewise, IP-literal hosts excluded), regexp on the three patterns sourceaddrs and terraform-registry-address use, terraform-registry-address ParseModuleSource, terraform-svchost ForComparison/ForDisplay for ASCII host names (IDNA mapping of non-ASCII names and punycode are outside the model: such inputs go to the Go oracles only), go-versions ParseVersion/String, strings.TrimSpace/ToLower on ASCII; validated on every run: every Parse* entry point and MakeRemoteSource is run on grammar-derived, single-rule-violation and hostile strings and all accessors of the result are compared with the model",
 ]
+STREAMS["manifest"] = {
+    "name": "manifest", "corr": "Corr.RunManifest",
+    "selftest": {"good": 'Case (s2l "/bundle") (mkManifest 1 [mkMPackage (s2l "git::https://example.com/r.git") (s2l "d") [] []] []) true (Some (mkOpened [(s2l "git::https://example.com/r.git", s2l "/bundle/d", [], [])] [])) [QReverse (s2l "/bundle/d/x") (Some (s2l "git::https://example.com/r.git", s2l "x"))]',
+                 "bad": 'Case (s2l "/bundle") (mkManifest 1 [mkMPackage (s2l "git::https://example.com/r.git") (s2l "d") [] []] []) true (Some (mkOpened [(s2l "git::https://example.com/r.git", s2l "/bundle/d", [], [])] [])) [QReverse (s2l "/bundle/e/x") (Some (s2l "git::https://example.com/r.git", s2l "x"))]'},
+}
 STREAMS["unpack"] = {"name": "unpack", "corr": "Corr.RunUnpack"}
 _FS_ASSUME = [
     "modelled, not verified: the kernel's path resolution and lstat/stat/mkdir/open(O_CREAT|O_TRUNC)/symlink/chmod/utimensat, Go's os.MkdirAll, filepath.Join/Clean/Rel/Dir on clean absolute paths (FS/FS.v, Slug/Unpack.v); validated on every run: each case executes the real Unpack in a chrooted child whose root is the model's root, and the whole final tree is compared",
@@ -74,7 +79,7 @@ PROPS = {
         "assumptions": _PACK_ASSUME + ["partial on schedules: concurrent Pack calls race on the shared default-rule flags (a Go data race); the theorem covers the reachable flag states, not torn accesses", "C16_history_independent is stated on the abstract ignore walk (Ignore/Prune.v); Pack's walk uses the same decision procedure (Rules.excludes) and is compared with the implementation under both flag states"],
     },
     "C19": {
-        "streams": ["ignore", "pack", "unpack", "resolve", "addr"],
+        "streams": ["ignore", "pack", "unpack", "resolve", "addr", "manifest"],
         "theorems": "C19_rule_file_never_panics (all rule files), C19_pack_terminates_without_dereference (fuel = height of the tree, all trees), total structurally-terminating path resolution; with dereferencing: concrete hazards terminate (Example) and every run is under a watchdog",
         "assumptions": _PACK_ASSUME + ["partial: panics and loops inside net/url, regexp, archive/tar, encoding/json are outside the model; address parsers and manifest loading are exercised by watched runs (resolve/bundle streams), termination of dereferencing Pack in general is observed (20 s watchdog), not proved"],
     },
@@ -139,6 +144,11 @@ PROPS = {
         "streams": ["addr"],
         "theorems": "C07_parse_remote_policy, C07_make_remote_source_policy, C07_parse_remote_package_policy, C07_parse_source_policy, C07_parse_final_source_policy (every accepted string / triple on every route satisfies the independent policy predicate), C07_query_normal_form (parse_query o encode_query = stable sort, all argument lists; escaping round trip by a sweep over all 256 byte values)",
         "assumptions": _ADDR_ASSUME + ["partial: the converse direction (every address following the documented grammar is accepted) is decided per run on the implementation (grammar generator + must-accept oracle) and by correspondence; it is not yet a theorem"],
+    },
+    "C18": {
+        "streams": ["manifest"],
+        "theorems": "C18_opened_bundle_directories, C18_bad_directory_refused (every manifest document), C18_remote_lookup_inside, C18_registry_lookup_inside (every address), C18_reverse_inverts_forward, C18_reverse_only_inside, C18_outside_not_in_bundle (every path, every set of aliases sharing a directory)",
+        "assumptions": _ADDR_ASSUME + ["modelled, not verified: encoding/json decoding of the manifest (the model starts at the decoded document; raw JSON mutations are run against the implementation with the direct oracle only), os.ReadFile, filepath.Abs/Rel/Join/Clean on absolute Unix paths (Bundle/Lookup.v comps / join3, on Base/PathAlg.v), Go map iteration order (the reverse lookup's choice among equally short aliases is compared as membership in the model's candidate set); two manifest version keys that parse to the same version are not generated for the model (map-order dependent)"],
     },
     "C11": {
         "streams": ["resolve"],
